@@ -250,6 +250,12 @@ def run_times(spec, ctx):
             perturb(ctx, r, it)
         y = r.choice([1900, 1950, 1969, 1970, 1971, 2000, 2024, 2100, 5000, 9999])
         dt = datetime.datetime(y, r.randint(1, 12), r.randint(1, 28), r.randint(0, 23), r.randint(0, 59), r.randint(0, 59))
+        if r.random() < 0.05:
+            # the first and the last representable day, any time of day
+            dt = dt.replace(year=r.choice([1900, 9999]))
+            dt = dt.replace(month=1, day=1) if dt.year == 1900 else dt.replace(month=12, day=r.choice([30, 31]))
+            y = dt.year
+            ctx.count("edge_day_times")
         ctx.case(("time", dt.isoformat()))
         cls = "time-of-day" + ("-pre1970" if y < 1970 else "")
         try:
@@ -301,12 +307,18 @@ def run_times(spec, ctx):
                 ctx.violation("C17:difference-raises:subsecond", "%s with hd = %s -> %s" % (src, hd.isoformat(), core.safe_str(o.exc, 100)), {"dt": hd.isoformat()})
             elif str(o.value) != want:
                 ctx.violation("C17:difference:subsecond", "%s with hd = %s is %s, calendar says %s" % (src, hd.isoformat(), o.value, want), {"dt": hd.isoformat()})
-        if i % 20 == 0:
+        if i % 20 == 0 or (y in (1900, 9999) and (dt.month, dt.day) in ((12, 31), (12, 30), (1, 1))):
             s = dt.strftime("%Y%m%d%H%M%S")
             env = ckl.functions.Environment()
             k = r.choice([1, 7, 30, 365])
             if y == 9999:
                 k = 1 if (dt.month, dt.day) < (12, 28) else 0
+            if (dt.year, dt.month, dt.day) == (9999, 12, 31):
+                # (d - 1) + 1 lands on the last day again; date(decimal(d)) converts it directly
+                o9 = observe(lambda: it.interpret("[string((date('%s') - 1) + 1), string(date(decimal(date('%s')))), string(date('%s') + 0)]" % (s, s, s), "c17", env), 3000000)
+                ctx.count("program_evaluations")
+                if o9.kind != "value" or str(o9.value) != "['%s', '%s', '%s']" % (s, s, s):
+                    ctx.violation("C17:last-day-with-time", "date('%s'): [(d - 1) + 1, date(decimal(d)), d + 0] -> %s" % (s, core.safe_str(o9.value if o9.kind == "value" else o9.exc, 150)), {"dt": s})
             o = observe(lambda: it.interpret("string((date('%s') + %d) - %d)" % (s, k, k), "c17", env), 3000000)
             ctx.count("program_evaluations")
             if o.kind != "value":
